@@ -175,7 +175,9 @@ ValueClauses(rec, okreg, okrb, cellsok) ==
         \o (IF badcell = {} THEN <<>> ELSE <<[clause |-> "C07.pool_value", cell |-> MinOf(badcell), lastpaths |-> lp]>>)
         \o (IF res[1].struct = <<>> THEN <<>> ELSE <<[clause |-> res[1].struct[1].clause, lastpaths |-> lp]>>)
 PVerdict(rec) ==
-   IF rec.st # "ok" THEN      \* exception / no answer; when the driver could record them, the lifted assignments of the
+   IF rec.st # "ok" /\ rec.part = 1 /\ rec.st # "timeout" /\ \E t \in InputTrees(rec) : ~WellTyped(t)
+      THEN <<[clause |-> "input.illtyped_lifted_aff"]>>      \* the evaluator refuses an ill-typed lifted list (C11 / C04's subject)
+   ELSE IF rec.st # "ok" THEN \* exception / no answer; when the driver could record them, the lifted assignments of the
                               \* failing (last) instruction and the pool before it classify the failure
       <<[clause |-> IF rec.st = "timeout" THEN "C07.terminates" ELSE "C07.noexc",
          lastpaths |-> IF rec.part = 1 /\ \A t \in InputTrees(rec) : WellTyped(t)
